@@ -49,6 +49,7 @@ class Tracker:
         self.ever_started = False
         self.restarted = False
         self.after_stop = None
+        self.transient_ok = True   # every transient stop so far left one free row for its line feed
 
     # the frame the user is entitled to see for the current renderable
     def frame(self, final=False):
@@ -111,6 +112,8 @@ class Tracker:
                 self.rebuild()
                 self.display(final=True)
                 self.final_h = self.shown_h
+                if self.cfg.transient and self.shown_h + 1 > self.cfg.height:
+                    self.transient_ok = False
                 self.phase = "stopped"
                 if self.cfg.transient:
                     # nothing stays (an empty final frame still costs the line feed stop() writes)
@@ -321,6 +324,21 @@ def spec_case(ctx, cfg, ops):
         return False, [], []
     F = tr.F if cfg.kind == "live" else trim(tr.F)
     return wf, tr.P, F
+
+
+def specm_case(cfg, ops):
+    """Multi-session specification (Lean `wfM / finished / liveFrameOf`) from the independent tracker."""
+    tr = Tracker(cfg, reset_shape=1)
+    for op in ops:
+        try:
+            tr.op(op)
+        except KeyError:
+            return None
+    wf = tr.fits and tr.transient_ok and cfg.height >= 1
+    if not wf:
+        return "0;0:"
+    rows = tr.P + (tr.after_stop if tr.after_stop is not None else tr.F)
+    return "1;" + enc_str_list(trim(rows))
 
 
 def with_case(ctx, cfg, ops, faults, raise_at):
@@ -535,6 +553,7 @@ def run(ctx):
     # ---- 2. seeded random sessions up to 40 operations, evaluated after every operation
     n_rand = 500 if ctx.quick else 12000
     spec_batch = []
+    specm_batch = []
     outputs = []
     for j in range(n_rand):
         kind, transient, ov, W, H = rng.choice(cfgs)
@@ -547,6 +566,7 @@ def run(ctx):
             outputs.append((cfg.height, chars))
         if not any(o[0] == "X" for o in pops[:-1]):
             spec_batch.append((cfg, pops))
+        specm_batch.append((cfg, pops))
     # arbitrary histories (restarts, stop in the middle, faults with try/except around every op): correspondence only
     for j in range(n_rand // 2):
         kind, transient, ov, W, H = rng.choice(cfgs)
@@ -554,9 +574,11 @@ def run(ctx):
         # (argument-less prints are mixed with restarts only once F19 is repaired: one cause per failing history)
         ops = rand_ops(rng, cfg, rng.randint(1, 40), BARE_BYPASS == 0 and rng.random() < 0.3, session=False)
         fl = L.Faults(exact=rng.sample(range(30), rng.randint(0, 4)), from_=rng.choice([None, None, rng.randint(0, 30)])) if kind != "status" and rng.random() < 0.6 else None
-        chars, _, _ = run_history(ctx, cfg, ops, faults=fl, evaluate=fl is None, tag="arbitrary")
+        chars, pops, _ = run_history(ctx, cfg, ops, faults=fl, evaluate=fl is None, tag="arbitrary")
         if j % 4 == 0:
             outputs.append((cfg.height, chars))
+        if fl is None:
+            specm_batch.append((cfg, pops))
     ctx.flush()
 
     # ---- 3. Lean replay vs Python screen oracle on the real streams (+ a few synthetic ones)
@@ -580,6 +602,12 @@ def run(ctx):
             continue
         wf, P, F = r
         ctx.case("live_spec", [cfg.enc(0, START_GUARD, RESET_SHAPE), cfg.enc_init(), enc_ops(cfg, pops)], _SpecAnswer(wf, P, F, cfg.kind), shape=f"{cfg.kind}:wf{int(wf)}")
+    ctx.flush()
+
+    for cfg, pops in specm_batch + [(c, prepare(c, o)) for c, o in corpus()]:
+        ans = specm_case(cfg, pops)
+        if ans is not None:
+            ctx.case("live_specm", [cfg.enc(0, START_GUARD, 1), cfg.enc_init(), enc_ops(cfg, pops)], ans, shape=f"{cfg.kind}:wf{ans[0]}:{'multi' if sum(o[0] == 'X' for o in pops) > 1 else 'single'}")
     ctx.flush()
 
     # ---- 5. exceptions: every render-call index and every block position
